@@ -107,7 +107,7 @@ def run(ctx, widen=False):
                 "pass-through, through ports); non-trivial = contains a child->child wire, a pass-through, a through port or nesting depth>=2; "
                 "distinct generator seeds whose connections and port sizes were checked at 3 random points")
     base = ctx.seed * 1000003 + 500000
-    pipeline.run_stream(ctx, __name__, range(base, base + n), extra={"p_through": 0.3, "p_passthrough": 0.35})
+    pipeline.run_stream(ctx, __name__, range(base, base + n), extra={"p_through": 0.3, "p_passthrough": 0.35, "p_shuffle_children": 0.9, "max_children": 4, "leaf_inputs": [1, 2, 2, 3]})
 
 
 def replay(payload):
